@@ -48,8 +48,10 @@ def _entry_checks_closing(ctx, f):
         return isinstance(st, ast.Expr) and isinstance(st.value, ast.Call) and (call_recv(st.value) or "").split(".")[0] in ("log", "logging")
     while harmless(n):  # docstring, logging
         n = cf.nodes[[t for t, lab in cf.succ[n.id] if lab is None][0]]
-    if n.kind == "test" and norm(n.stmt.test) == "self._closing":
-        arm = cf.reach([t for t, lab in cf.succ[n.id] if lab and lab[0] == "cond" and lab[2]])
+    if n.kind == "test" and norm(n.stmt.test) in ("self._closing", "not self._closing"):
+        closed_pol = norm(n.stmt.test) == "self._closing"  # the outcome of the test that means "closed"
+        starts = [t for t, lab in cf.succ[n.id] if lab and lab[0] == "cond" and lab[2] == closed_pol]
+        arm = cf.reach(starts) | set(starts)
         return cf.exit.id not in arm or all(isinstance(cf.nodes[i].stmt, (ast.Raise, ast.Return)) or cf.nodes[i].stmt is None for i in arm)
     return False
 
